@@ -144,6 +144,56 @@ theorem tx_conserves_failure_partial {s pre s' : St} {f : Fin} (hv : VWF pre)
   · simp [e]; omega
   · simp [e]
 
+/-! ### The revert assumption `hrev` is a theorem for the model's own `revert`
+
+whenever every fee lock was taken on an XRD vault that already existed at the start of the
+transaction (a lock on a vault created by the failed transaction makes the real
+`revert_non_force_write_changes` panic: C02 `revert:panic`). -/
+
+theorem revert_sum_aux (vaults : List Nat) (vres : Nat → Option Nat) (hn : vaults.Nodup) (r : Nat)
+    (ls : List Lock) (hl : ∀ l ∈ ls, l.vault ∈ vaults ∧ vres l.vault = some XRD) (bal : Nat → Int) :
+    sumOn vaults (fun v => if vres v = some r then bal v - lockedOn ls v else 0)
+      = sumOn vaults (fun v => if vres v = some r then bal v else 0)
+        - (if r = XRD then sumLocks ls else 0) := by
+  induction ls with
+  | nil => simp [lockedOn, sumLocks]
+  | cons l rest ih =>
+    have hl0 := hl l (List.mem_cons_self ..)
+    have ih' := ih (fun x hx => hl x (List.mem_cons_of_mem _ hx))
+    rw [sumOn_update hn hl0.1
+      (g := fun v => if vres v = some r then bal v - lockedOn rest v else 0)
+      (g' := fun v => if vres v = some r then bal v - lockedOn (l :: rest) v else 0)
+      (by intro x hx
+          have : ¬ l.vault = x := fun e => hx e.symm
+          simp [lockedOn, this]), ih']
+    simp only [lockedOn, sumLocks, hl0.2, Option.some.injEq, if_true]
+    by_cases hr : r = XRD
+    · subst hr; simp; omega
+    · have : ¬ XRD = r := fun e => hr e.symm
+      simp [hr, this]
+
+/-- `revert_vsum`: the `hrev` hypothesis, proved for the model's `revert` -/
+theorem revert_vsum (s s1 : St) (hn : s.vaults.Nodup)
+    (hl : ∀ l ∈ s1.locks, l.vault ∈ s.vaults ∧ s.vres l.vault = some XRD) (r : Nat) :
+    vsum (revert (beginTx s) s1) r
+      = vsum s r - (if r = XRD then sumLocks (revert (beginTx s) s1).locks else 0) :=
+  revert_sum_aux s.vaults s.vres hn r s1.locks hl s.bal
+
+/-- Failure path with `hrev` discharged: a failed transaction (state `s1` at the point of failure,
+reverted to the state `s` before it, fee locks kept) moves nothing but XRD, and XRD only by the
+burnt share of the fee. -/
+theorem tx_conserves_failure {s s1 s' : St} {f : Fin} (hv : VWF s)
+    (hlk : ∀ l ∈ s1.locks, l.vault ∈ s.vaults ∧ s.vres l.vault = some XRD)
+    (hf : FinOk (revert (beginTx s) s1) f)
+    (hfin : finalize (revert (beginTx s) s1) f false = .ok s') :
+    ∀ r, vsum s' r - vsum s r = - s'.burned r :=
+  tx_conserves_failure_partial (pre := revert (beginTx s) s1) ⟨hv.vnodup, hv.vdom⟩
+    (by intro v hvm
+        simp only [List.mem_map] at hvm
+        obtain ⟨l, hl, rfl⟩ := hvm
+        exact (hlk l hl).2)
+    hf (revert_vsum s s1 hv.vnodup hlk) (fun _ => rfl) hfin
+
 /-- The compiled tree creates XRD without the `TrackTotalSupply` feature (regenerated on every run
 from the genesis of the current working tree); `Inv.xrd` is this fact about the model state. -/
 theorem xrd_untracked_in_tree : Radix.Generated.Ledger.xrdTracksSupply = false := by decide
